@@ -150,6 +150,19 @@ pub fn alphabet(scheme: Scheme, init_seq: u64, own_pub: &[u8], other_pub: &[u8])
     a.push(Op::Insert(slot.clone(), Val::B(own_pub.to_vec())));
     a.push(Op::Insert(slot.clone(), Val::B(other_pub.to_vec())));
     a.push(Op::Insert(slot.clone(), Val::B(vec![0x55; 7])));
+    if scheme == Scheme::Secp && !cfg!(miri) {
+        // the signer's OWN key in its other SEC1 encodings (uncompressed, hybrid): whatever the call answers, a
+        // record handed out carries the canonical compressed key
+        if let Some((_, u)) = crate::refimpl::sig::secp_normalise(own_pub) {
+            let mut unc = vec![4u8];
+            unc.extend_from_slice(&u);
+            let mut hyb = unc.clone();
+            hyb[0] = 6 + (u[63] & 1);
+            a.push(Op::Insert(slot.clone(), Val::B(unc.clone())));
+            a.push(Op::Insert(slot.clone(), Val::B(hyb)));
+            a.push(Op::RemoveInsert(vec![], vec![(slot.clone(), unc)]));
+        }
+    }
     // raw inserts: one valid item
     a.push(Op::InsertRaw(k("r"), vec![0x05]));
     a.push(Op::InsertRaw(k("r"), vec![0x80]));
@@ -174,6 +187,8 @@ pub fn alphabet(scheme: Scheme, init_seq: u64, own_pub: &[u8], other_pub: &[u8])
         a.push(Op::InsertRawNested(k("r"), 400_000));
         a.push(Op::InsertRawNested(k("r"), 40));
         a.push(Op::Insert(k("huge"), Val::B(vec![0x11; 70_000])));
+        a.push(Op::RemoveInsert(vec![], vec![(k("huge"), vec![0x12; 70_000])]));
+        a.push(Op::RemoveInsert(vec![k("x")], vec![(k("a"), vec![1]), (k("huge"), vec![0x13; 66_000]), (k("b"), vec![2])]));
     }
     // raw inserts under reserved keys
     a.push(Op::InsertRaw(k("tcp"), vec![0x82, 0x1f, 0x90]));
